@@ -8,6 +8,7 @@ import z3
 from .core import *  # noqa
 
 REGISTRY = {}
+THEORIES = {}  # name -> list of axioms; a contract opts in with `theories = (name, ...)`
 GLOBAL_AXIOMS = []  # definitional facts added to every obligation (listed in the evidence)
 
 # Trigger marker: Tr(i) is true for every i.  It gives quantifiers whose body
@@ -29,6 +30,7 @@ class Contract:
     raises = {}  # exception kind -> fn(c) -> [(label, formula)]
     inline = False  # tiny helper inlined at call sites (listed in evidence)
     defaults = {}  # param -> python default for omitted args (as Val factory)
+    theories = ()  # names of axiom sets (spec.THEORIES) added to this function's obligations
 
     @staticmethod
     def requires(c):
